@@ -39,7 +39,7 @@ META = {
 
 # Defects demonstrated by this check on the unchanged repository (see the family report).  Signatures are computed by
 # Trace_PanicFlow.SigOf: cause = root cause as diagnosed by the transcribed VM machine (or the symptom when it does not explain it).
-PROPOSED_KNOWN = [
+_PROPOSED_BY_THE_BUILD = [
     {"kind": "known", "signature": {"fam": "panicflow", "cause": "position-empty"},
      "what": "PanicError.Path() is \"\" and Position() is zero for every panic(v): runtime.newPanic reads InstructionInfo[vm.pc] "
              "after vm.pc was advanced past the Panic instruction (internal/runtime/errors.go newPanic; fix: vm.pc-1)"},
@@ -460,3 +460,7 @@ def run(ctx, only_cases=None):
 def replay(ctx, path):
     c = json.loads((Path(path) / "case.json").read_text())
     return run(ctx, only_cases=[{"id": c["id"], "prog": c["prog"], "variants": c.get("variants") or ["func"]}])
+
+
+# the findings of this check are in known-findings.json (kind "known" / "fixed"); _PROPOSED_BY_THE_BUILD documents the original list
+PROPOSED_KNOWN = []
